@@ -103,7 +103,8 @@ def step(p0: int, gaps: List[int], data: List[int], p: int, new: List[int]) -> s
         f.insert(p, s)
     except Exception as e:
         if NEWLEN == 0:
-            return "ok:empty-rejected"
+            # "an empty chunk only extends that extent": it holds no byte, so no byte of it can be occupied (finding F10)
+            return "FAIL sig=C11|empty-chunk-rejected|lens=%%r" %% (LENS,)
         if not hit:
             return "FAIL sig=C11|spurious-collision|lens=%%r new=%%d" %% (LENS, NEWLEN)
         # a rejected insert leaves the buffer as it was
@@ -120,7 +121,9 @@ def step(p0: int, gaps: List[int], data: List[int], p: int, new: List[int]) -> s
             continue   # an empty chunk at the very same position is replaced by the new chunk (same extent)
         if f.fragments[q] != c:
             return "FAIL sig=C11|earlier-bytes-altered-or-dropped|lens=%%r" %% (LENS,)
-    if f.fragments[p] != s:
+    if f.fragments[p] != s and not (NEWLEN == 0 and any(q == p for q, c in before)):
+        # (an empty chunk landing exactly where a chunk starts stores no byte: the chunk already there must stay - checked
+        # above - and the extent is unchanged)
         return "FAIL sig=C11|chunk-not-stored"
     b = f.begin_of_fragments
     if len(b) != len(LENS) + 1:
